@@ -23,6 +23,8 @@ func init() {
 			"announced ids and scheduled groups derive from the same liveChildDescriptors result (initial frame, nested frames, sequence arm); the stream's Complete() is called only from a defer registered after the first successful Flush; defer groups use a plain errgroup that is joined; " +
 			"the defer normalization stages are registered in the documented order. It does not decide reconstruction equality with the non-deferred response.",
 		Mutants: []Mutant{
+			{Name: "the defer info collector looks the list ancestor up by its response name (seeded change C10-2)", File: "v2/pkg/engine/plan/defer_info_collector.go", Rule: "C10-R11", Key: "deferInfoCollector.outermostListFieldIndex/schema-lookup-by-schema-name:NodeFieldDefinitionByName",
+				Old: "c.definition.NodeFieldDefinitionByName(parentType, c.operation.FieldNameBytes(ancestor.Ref))", New: "c.definition.NodeFieldDefinitionByName(parentType, c.operation.FieldAliasOrNameBytes(ancestor.Ref))"},
 			{Name: "lists of lists are not looked into while a defer is rendered (reverts the F57 fix)", File: "v2/pkg/engine/resolve/resolvable.go", Rule: "C10-R9", Key: "Resolvable.fieldNodeKindAllowsSeek/item-kind-reached-by-loop-or-recursion",
 				Old: "\t\titem := field.Value.(*Array).Item\n\t\tfor item.NodeKind() == NodeKindArray {\n\t\t\titem = item.(*Array).Item\n\t\t}\n\t\tif item.NodeKind() != NodeKindObject {", New: "\t\tif field.Value.(*Array).Item.NodeKind() != NodeKindObject {"},
 			{Name: "anchor gating ignores that the initial data was null (reverts part of the F58 fix)", File: "v2/pkg/engine/resolve/resolvable.go", Rule: "C10-R10", Key: "Resolvable.deferAnchorAlive/tests-the-data-null-record",
@@ -65,6 +67,9 @@ func runC10(r *fw.Run) {
 		r.Rule("C10-R8", "the planner reads the arguments of the internal defer directive (and every other ast.Value) through a kind-specific accessor only where the value's kind is known to be that kind")
 		n := kindRefAgreement(r, "C10-R8", []string{"plan"}, nil)
 		r.Expect("C10-R8", "kind-specific uses of a value's ref in package plan", n, 10)
+		r.Rule("C10-R11", "in the planner (incl. the defer info collector) a response name (alias or name) never reaches a lookup keyed by the schema-side field name")
+		nRN := responseNamesNeverReachSchemaLookups(r, "C10-R11", []string{"plan"})
+		r.Expect("C10-R11", "schema-side field name arguments in package plan", nRN, 20)
 	}()
 	p := r.Prog
 	pk := p.Pkg("resolve")
